@@ -136,6 +136,12 @@ pub enum Start<O> {
     /// beyond their return values: a start state that already has several
     /// non-trivial buckets / a compacted and flushed layout.
     Prelude(Vec<HOp<O>>),
+    /// run `seed` on a fresh index, flush, let `Sut::fabricate(recipe)` rewrite
+    /// the object map into a hand-made durable layout (one that an older
+    /// release or an interrupted in-place flush of it can have left behind),
+    /// and start from `load` of that; the model is what the documented loader
+    /// rules give for the layout.
+    Fabricated { seed: Vec<HOp<O>>, recipe: String },
 }
 
 pub struct FlushOut {
@@ -201,6 +207,12 @@ pub trait Sut: 'static {
     }
     /// Rewrites a manifest-format object map into the legacy layout.
     fn to_legacy(_cfg: &Self::Cfg, _store: &Store) -> Option<Store> {
+        None
+    }
+    /// Hand-made durable layout `recipe` derived from a real flushed object
+    /// map; returns the new object map and the contents the documented loader
+    /// rules give for it.
+    fn fabricate(_cfg: &Self::Cfg, _store: &Store, _model: &Self::Model, _recipe: &str) -> Option<(Store, Self::Model)> {
         None
     }
     /// `true` for the failure class of a RECORDED finding whose effect on the
@@ -305,6 +317,22 @@ pub fn start_live<S: Sut>(cfg: &S::Cfg, start: &Start<S::Op>, lenient: bool) -> 
         let store = live.store.clone();
         live.idx = guard("load", || {
             S::load(cfg, &store).map_err(|e| Fail::new("legacy:load-failed", e))
+        })?;
+        S::on_load(&mut live.model);
+        live.committed = live.model.clone();
+    }
+    if let Start::Fabricated { seed, recipe } = start {
+        for op in seed {
+            step(&mut live, cfg, op)?;
+        }
+        do_flush(&mut live, None).map_err(|(_, e)| Fail::new("fabricated-seed:flush-error", e))?;
+        let (store, model) = S::fabricate(cfg, &live.store, &live.model, recipe)
+            .ok_or_else(|| Fail::new("machinery:fabricate", format!("recipe {recipe:?} not applicable to the seed's layout")))?;
+        live.store = store;
+        live.model = model;
+        let store = live.store.clone();
+        live.idx = guard("load", || {
+            S::load(cfg, &store).map_err(|e| Fail::new("fabricated:load-failed", e))
         })?;
         S::on_load(&mut live.model);
         live.committed = live.model.clone();
